@@ -25,6 +25,7 @@ import (
 	"net/http"
 	"net/http/httputil"
 	"slices"
+	"strconv"
 	"strings"
 	"time"
 
@@ -121,6 +122,12 @@ func (rt *RoundTripper) cacheResponse(req *http.Request, resp *http.Response) {
 	// a response which is already stale (e.g. max-age=0) must not be stored. A not positive ttl
 	// would furthermore mean "never expires" for the in-memory cache
 	ttl := time.Until(expires)
+
+	// the time the response has spent in other caches already counts (RFC 7234, section 4.2.3)
+	if age, err := strconv.Atoi(strings.TrimSpace(resp.Header.Get("Age"))); err == nil && age > 0 {
+		ttl -= time.Duration(age) * time.Second
+	}
+
 	if ttl <= 0 {
 		return
 	}
